@@ -745,7 +745,9 @@ impl FileStateMachine {
         if self.lease.is_none() {
             if let Some(ref scratch) = replay_lease {
                 let ttl_path = self.data_dir.join("ttl_state.bin");
-                tokio::fs::write(&ttl_path, scratch.to_snapshot()).await?;
+                let tmp_path = self.data_dir.join("ttl_state.bin.tmp");
+                tokio::fs::write(&tmp_path, scratch.to_snapshot()).await?;
+                fs::rename(&tmp_path, &ttl_path).await?;
             }
         }
 
@@ -787,7 +789,11 @@ impl FileStateMachine {
             buf.extend_from_slice(&term.to_be_bytes());
         }
 
-        std::fs::write(data_path, buf)?;
+        // Write a temporary file and rename it over the old one: a crash in between must
+        // leave the previous checkpoint readable, not a truncated file.
+        let tmp_path = self.data_dir.join("state.data.tmp");
+        std::fs::write(&tmp_path, buf)?;
+        std::fs::rename(&tmp_path, data_path)?;
         Ok(())
     }
 
@@ -799,12 +805,15 @@ impl FileStateMachine {
             data.iter().map(|(k, (v, t))| (k.clone(), (v.clone(), *t))).collect()
         };
 
+        // Written to a temporary file and renamed over the old one at the end: a crash in
+        // between must leave the previous checkpoint readable, not a truncated file.
         let data_path = self.data_dir.join("state.data");
+        let tmp_path = self.data_dir.join("state.data.tmp");
         let mut file = OpenOptions::new()
             .write(true)
             .create(true)
             .truncate(true)
-            .open(data_path)
+            .open(&tmp_path)
             .await?;
 
         // Batch serialize into a single buffer — eliminates per-entry async yield overhead.
@@ -827,6 +836,8 @@ impl FileStateMachine {
         file.flush().await?;
         #[cfg(d_engine_verif)]
         d_engine_core::verif::point("fsm_data:after_write", None, 0, 0);
+        drop(file);
+        fs::rename(&tmp_path, &data_path).await?;
 
         Ok(())
     }
@@ -834,11 +845,12 @@ impl FileStateMachine {
     /// Persists metadata to disk
     fn persist_metadata(&self) -> Result<(), Error> {
         let metadata_path = self.data_dir.join("metadata.bin");
+        let tmp_path = self.data_dir.join("metadata.bin.tmp");
         let mut file = std::fs::OpenOptions::new()
             .write(true)
             .create(true)
             .truncate(true)
-            .open(metadata_path)?;
+            .open(&tmp_path)?;
 
         let index = self.last_applied_index.load(Ordering::SeqCst);
         let term = self.last_applied_term.load(Ordering::SeqCst);
@@ -847,16 +859,19 @@ impl FileStateMachine {
         file.write_all(&term.to_be_bytes())?;
 
         file.flush()?;
+        drop(file);
+        std::fs::rename(&tmp_path, metadata_path)?;
         Ok(())
     }
 
     async fn persist_metadata_async(&self) -> Result<(), Error> {
         let metadata_path = self.data_dir.join("metadata.bin");
+        let tmp_path = self.data_dir.join("metadata.bin.tmp");
         let mut file = OpenOptions::new()
             .write(true)
             .create(true)
             .truncate(true)
-            .open(metadata_path)
+            .open(&tmp_path)
             .await?;
         #[cfg(d_engine_verif)]
         d_engine_core::verif::point("fsm_meta:after_truncate", None, 0, 0);
@@ -868,6 +883,8 @@ impl FileStateMachine {
         file.write_all(&term.to_be_bytes()).await?;
 
         file.flush().await?;
+        drop(file);
+        fs::rename(&tmp_path, &metadata_path).await?;
         Ok(())
     }
 
@@ -930,7 +947,9 @@ impl FileStateMachine {
         d_engine_core::verif::point("fsm_ckpt:after_meta", None, 0, 0);
         if let Some(ref lease) = self.lease {
             let ttl_path = self.data_dir.join("ttl_state.bin");
-            tokio::fs::write(&ttl_path, lease.to_snapshot()).await?;
+            let tmp_path = self.data_dir.join("ttl_state.bin.tmp");
+            tokio::fs::write(&tmp_path, lease.to_snapshot()).await?;
+            fs::rename(&tmp_path, &ttl_path).await?;
         }
         self.clear_wal_async().await?;
 
@@ -1100,8 +1119,10 @@ impl StateMachine for FileStateMachine {
             let ttl_snapshot = lease.to_snapshot();
             let ttl_path = self.data_dir.join("ttl_state.bin");
             // Use blocking write since stop() is sync
-            std::fs::write(&ttl_path, ttl_snapshot)
+            let tmp_path = self.data_dir.join("ttl_state.bin.tmp");
+            std::fs::write(&tmp_path, ttl_snapshot)
                 .map_err(d_engine_core::StorageError::IoError)?;
+            std::fs::rename(&tmp_path, &ttl_path).map_err(d_engine_core::StorageError::IoError)?;
             debug!("Persisted TTL state on shutdown");
         }
 
